@@ -40,6 +40,10 @@ func (g *Generator) genAttributeStringOctets(w io.Writer, attr *dictionary.Attri
 	p(w, `	}`)
 	if attr.HasTag() {
 		p(w, `	if tag <= 0x1F {`)
+		p(w, `		if len(a) > 252 {`)
+		p(w, `			err = errors.New("value too long for a tagged attribute")`)
+		p(w, `			return`)
+		p(w, `		}`)
 		p(w, `		a = append(radius.Attribute{tag}, a...)`)
 		p(w, `	}`)
 	}
@@ -76,6 +80,10 @@ func (g *Generator) genAttributeStringOctets(w io.Writer, attr *dictionary.Attri
 	p(w, `	}`)
 	if attr.HasTag() {
 		p(w, `	if tag <= 0x1F {`)
+		p(w, `		if len(a) > 252 {`)
+		p(w, `			err = errors.New("value too long for a tagged attribute")`)
+		p(w, `			return`)
+		p(w, `		}`)
 		p(w, `		a = append(radius.Attribute{tag}, a...)`)
 		p(w, `	}`)
 	}
@@ -366,6 +374,10 @@ func (g *Generator) genAttributeStringOctets(w io.Writer, attr *dictionary.Attri
 	p(w, `	}`)
 	if attr.HasTag() {
 		p(w, `	if tag <= 0x1F {`)
+		p(w, `		if len(a) > 252 {`)
+		p(w, `			err = errors.New("value too long for a tagged attribute")`)
+		p(w, `			return`)
+		p(w, `		}`)
 		p(w, `		a = append(radius.Attribute{tag}, a...)`)
 		p(w, `	}`)
 	}
@@ -402,6 +414,10 @@ func (g *Generator) genAttributeStringOctets(w io.Writer, attr *dictionary.Attri
 	p(w, `	}`)
 	if attr.HasTag() {
 		p(w, `	if tag <= 0x1F {`)
+		p(w, `		if len(a) > 252 {`)
+		p(w, `			err = errors.New("value too long for a tagged attribute")`)
+		p(w, `			return`)
+		p(w, `		}`)
 		p(w, `		a = append(radius.Attribute{tag}, a...)`)
 		p(w, `	}`)
 	}
@@ -1019,6 +1035,10 @@ func (g *Generator) genAttributeInteger(w io.Writer, attr *dictionary.Attribute,
 		p(w, `	a := radius.NewInteger(uint32(value))`)
 	}
 	if attr.HasTag() {
+		p(w, `	if value > 0xFFFFFF {`)
+		p(w, `		err = errors.New("value out of range for a tagged attribute")`)
+		p(w, `		return`)
+		p(w, `	}`)
 		p(w, `		if tag >= 0x01 && tag <= 0x1F {`)
 		p(w, `			a[0] = tag`)
 		p(w, `		} else {`)
@@ -1190,6 +1210,10 @@ func (g *Generator) genAttributeInteger(w io.Writer, attr *dictionary.Attribute,
 		p(w, `	a := radius.NewInteger(uint32(value))`)
 	}
 	if attr.HasTag() {
+		p(w, `	if value > 0xFFFFFF {`)
+		p(w, `		err = errors.New("value out of range for a tagged attribute")`)
+		p(w, `		return`)
+		p(w, `	}`)
 		p(w, `		if tag >= 0x01 && tag <= 0x1F {`)
 		p(w, `			a[0] = tag`)
 		p(w, `		} else {`)
